@@ -552,7 +552,7 @@ fn small_model(rng: &mut Rng) -> M {
 // ------------------------------------------------------------------ main
 
 #[derive(Default)]
-struct Stats { n_routes: usize, n_docs: usize, n_verdict_diff: usize, n_alias_strict: usize, n_alias_text_diff: usize, n_json: usize, json_outcomes: BTreeMap<String, usize>, mutation_kinds: BTreeMap<String, usize>,
+struct Stats { n_guard: usize, n_routes: usize, n_docs: usize, n_verdict_diff: usize, n_alias_strict: usize, n_alias_text_diff: usize, n_json: usize, json_outcomes: BTreeMap<String, usize>, mutation_kinds: BTreeMap<String, usize>,
                styles: BTreeMap<String, usize>, n_back: usize, n_strict_equiv: usize }
 
 fn main() {
@@ -597,9 +597,10 @@ fn main() {
         // JSON route
         let (out_json, tag, ts_json) = json_route(&jt);
         let descr = json!({"kind": "routes", "label": label, "style": format!("{style:?}"), "meta": meta, "sdl": sdl, "json": jt, "json_route": tag});
-        let term = |strict: bool| format!("CRoutes {} {:?} {} {} {} {} {} {}", coq_bool(strict), style, coq_bool(meta), coq_model(&m), ast_coq::tsdoc(&tsdoc), j.coq(), cschema(&ts_sdl), out_json);
+        let term = |strict: bool| format!("CRoutes {} {} {:?} {} {} {} {} {} {}", coq_bool(strict), coq_bool(label != "shadow-root"), style, coq_bool(meta), coq_model(&m), ast_coq::tsdoc(&tsdoc), j.coq(), cschema(&ts_sdl), out_json);
         cases.push(term(false), descr.clone());
         st.n_routes += 1;
+        if label != "shadow-root" { st.n_guard += 1; }
         if samples.len() < 2 { samples.push(json!({"kind": "routes", "label": label, "style": format!("{style:?}"), "meta": meta, "sdl": sdl, "json_route": tag})); }
         let Some(ts_json) = ts_json else { direct_failures.push(json!({"what": format!("the JSON route rejects a standard introspection result: {tag}"), "classes": [], "sdl": sdl, "json": jt})); continue; };
         // the unguarded comparison, on a few models where it is expected to differ
@@ -697,7 +698,7 @@ fn main() {
         "rule": "stream 1: one generated schema model (gen.rs schema, valid by construction, enriched with descriptions / deprecations on enum values, arguments, input fields, directives) = one SDL text (types in random order) + one introspection result built independently from the model (two key styles, with or without the introspection types, built-in scalars listed iff referenced); both real routes are run, both Schema values dumped, the declaration file printed on both routes, 5-6 generated operation documents checked under both. stream 2: mutated introspection results (missing / duplicated / renamed / unknown keys, wrong JSON types, unknown kinds, wrapped references, sequence-form structs, deprecation and isRepeatable variants, broken argument types, duplicated type definitions) through schema_from_introspection_json. distinct = distinct SDL texts + distinct (schema, document) pairs + distinct JSON texts",
         "samples": samples,
         "distribution": {
-            "models_both_routes": st.n_routes, "styles": st.styles, "back_conversions": st.n_back,
+            "models_both_routes": st.n_routes, "models_satisfying_model_ok (hypothesis of C15_routes_agree, checked in Coq per case)": st.n_guard, "styles": st.styles, "back_conversions": st.n_back,
             "operation_documents": st.n_docs, "verdict_differences_observed": st.n_verdict_diff,
             "strict_equivalence_cases": st.n_strict_equiv, "alias_strict_cases": st.n_alias_strict, "models_with_alias_text_difference": st.n_alias_text_diff,
             "json_cases": st.n_json, "json_outcomes": st.json_outcomes, "mutation_kinds": st.mutation_kinds,
